@@ -298,6 +298,7 @@ pub fn boundary_lits(e: &str) -> Vec<String> {
                       // not literals of eval_i64 at all: whatever stands around them, the call must return Err
                       "9223372036854775808", "18446744073709551616"],
         "num" => vec!["0", "1", "2", "3", "0.5", "2.5", "20", "21", "63", "4294967296", "3037000500", "9007199254740992", "9007199254740993",
+                      "9223372036854775808.", "18446744073709551616.", "9007199254740993.",
                       "4611686018427387904", "9223372036854775807", "9223372036854775806.", "0.1", "1.5"],
         "f64" => vec!["0", "1", "2", "3", "0.5", "0.1", "0.2", "2.5", "9007199254740992", "9007199254740993", "4.9406564584124654e-324", "1.7976931348623157e308",
                       "9223372036854775808", "9223372036854774784", "18446744073709551616", "4294967296",
@@ -305,6 +306,8 @@ pub fn boundary_lits(e: &str) -> Vec<String> {
                       "0.000000000000000000000000000000000000000000000000000000000000000000000000000000000000000000000000000000000000000000000000000000000000000000000000000000000000000000000000000000000000000000000000000000000000000000000000000000000000000000000000000000000000000000000000000000000000000000000000000000000000000000000000000000005",
                       "170", "171", "1.5", "3.5"],
         "dec" => vec!["0", "1", "2", "3", "0.1", "0.2", "1.10", "2.5", "0.5", "79228162514264337593543950335", "7922816251426433759354395033", "0.0000000000000000000000000001",
+                      // the integer-type boundaries (a tokenizer or an operation may take a machine-integer detour)
+                      "9223372036854775808", "9999999999999999999", "18446744073709551616", "4294967296", "9223372036854775807.5",
                       "39614081257132168796771975168", "1.0000000000000000000000000001", "9999999999999999999999999999", "27", "28", "0.3"],
         _ => vec!["0", "1", "2", "3i", "0.5", "i", "1.5i", "2.5", "10", "0.1"],
     };
